@@ -3,6 +3,7 @@
 use crate::error::JsError;
 use crate::gc::Gc;
 use crate::interpreter::Interpreter;
+use crate::interpreter::builtins::relative_index;
 use crate::prelude::*;
 use crate::value::{
     CheapClone, ExoticObject, Guarded, JsObject, JsObjectRef, JsString, JsValue, PropertyKey,
@@ -690,22 +691,10 @@ pub fn array_slice(
     let length = arr
         .borrow()
         .array_length()
-        .ok_or_else(|| JsError::type_error("Not an array"))? as i64;
+        .ok_or_else(|| JsError::type_error("Not an array"))? as usize;
 
-    let start_arg = args.first().map(|v| v.to_number() as i64).unwrap_or(0);
-    let end_arg = args.get(1).map(|v| v.to_number() as i64).unwrap_or(length);
-
-    let start = if start_arg < 0 {
-        (length + start_arg).max(0)
-    } else {
-        start_arg.min(length)
-    };
-
-    let end = if end_arg < 0 {
-        (length + end_arg).max(0)
-    } else {
-        end_arg.min(length)
-    };
+    let start = relative_index(args.first(), length, 0);
+    let end = relative_index(args.get(1), length, length);
 
     let mut result = Vec::new();
     for i in start..end {
@@ -1127,31 +1116,10 @@ pub fn array_fill(
     let elements = arr_ref
         .array_elements_mut()
         .ok_or_else(|| JsError::type_error("Array.prototype.fill called on non-array"))?;
-    let length = elements.len() as i64;
+    let length = elements.len();
 
-    let start = args
-        .get(1)
-        .map(|v| {
-            let n = v.to_number() as i64;
-            if n < 0 {
-                (length + n).max(0)
-            } else {
-                n.min(length)
-            }
-        })
-        .unwrap_or(0) as usize;
-
-    let end = args
-        .get(2)
-        .map(|v| {
-            let n = v.to_number() as i64;
-            if n < 0 {
-                (length + n).max(0)
-            } else {
-                n.min(length)
-            }
-        })
-        .unwrap_or(length) as usize;
+    let start = relative_index(args.get(1), length, 0);
+    let end = relative_index(args.get(2), length, length);
 
     for i in start..end {
         if let Some(slot) = elements.get_mut(i) {
